@@ -519,7 +519,7 @@ def run(ctx):
     from pv.gen import num, opzoo
     from pv.ref import sv
 
-    total = ctx.n(5000, 120000)
+    total = ctx.n(5000, 100000)
     ctx.note("import_s", round(ctx.elapsed(), 1))
     if ctx.shard == 0:
         _ctrl_values_exhaustive(ctx, qp, opzoo, sv)
